@@ -408,7 +408,13 @@ def check_takes(ctx, F, A):
     ctx.oblig(good and cnt == 2)
     if not (good and cnt == 2):
         ctx.violation("R-C12-PRIM", "take_byte", where, "take_byte must return (input[1..], input[0]) for non-empty input, else UnexpectedEOF")
-    tk = F.one("parser::take")
+    tks = F.find("parser::take")
+    if not tks:
+        # the fixed-size helper is an implementation detail: without it there is nothing of this kind to check (its only use, the
+        # Time workaround, is decided on Time::parse_with_tlf itself by R-C03-CHOICE)
+        ctx.cov["take_helper"] = "absent"
+        return
+    tk = tks[0]
     where = (tk["span"]["file"], tk["span"]["line"], tk["def"])
     good = True
     cnt = 0
@@ -454,6 +460,62 @@ def check_ints(ctx, F, A):
             for s2, v in outs:
                 if s2.ghost.get("c12-int-on"):
                     s2.ghost["c12-be-ret"] = v
+
+    def value_ok(s2, val, inp, ln, size, signed):
+        """the returned integer equals the big-endian two's-complement (signed) / binary (unsigned) number made of the ln input bytes"""
+        if not isinstance(val, VInt):
+            return False
+        srcs = [slice_elem(ip, s2, inp, Lin.const(j)) for j in range(ln)]
+        if not all(isinstance(x, VInt) for x in srcs):
+            return False
+        spec = Lin.const(0)
+        for j, x in enumerate(srcs):
+            spec = spec + x.lin.scale(1 << (8 * (ln - 1 - j)))
+        cases = [(None, spec)]
+        if signed:
+            cases = [(Lin.const(0x7f) - srcs[0].lin, spec), (srcs[0].lin - 0x80, spec - Lin.const(1 << (8 * ln)))]
+        for cond, want in cases:
+            s3 = s2.copy()
+            if cond is not None:
+                try:
+                    s3.assume_ge0(cond)
+                except Infeasible:
+                    continue
+            if not s3.prove_eq0(val.lin - want):
+                return False
+        return True
+
+    def array_ok(s2, val, be, inp, ln, size, signed, tname, fills):
+        if be is None or be[0] != "core::num::<impl %s>::from_be_bytes" % tname or be[1] is None or len(be[1]) != size:
+            return "returns the number encoded by the %d bytes (value %s; no %s::from_be_bytes of a %d-byte array either)" % (
+                ln, s2.describe(val.lin) if isinstance(val, VInt) else val, tname, size)
+        if s2.ghost.get("c12-be-ret") != val:
+            return "returns the value of that conversion"
+        arr = be[1]
+        first = slice_elem(ip, s2, inp, Lin.const(0))
+        for j in range(ln):
+            src = slice_elem(ip, s2, inp, Lin.const(j))
+            e = arr[size - ln + j]
+            if not (isinstance(e, VInt) and isinstance(src, VInt) and s2.prove_eq0(e.lin - src.lin)):
+                return "copies the bytes right-aligned to [SIZE-len, SIZE) in order (byte %d differs)" % j
+        fvs = {s2.const_of(e.lin) if isinstance(e, VInt) else None for e in arr[:size - ln]}
+        if len(fvs) > 1 or (fvs and None in fvs):
+            return "fills the leading bytes with one constant"
+        if fvs:
+            fv = fvs.pop()
+            fills.add(fv)
+            lo, hi = s2.interval(first.lin) if isinstance(first, VInt) else (None, None)
+            if fv == 0xff:
+                good = signed and lo is not None and lo >= 0x80
+            elif fv == 0:
+                good = (not signed) or (hi is not None and hi <= 0x7f)
+            else:
+                good = False
+            if not good:
+                return "fills with 0xff exactly when signed and the first byte is >= 0x80 (fill %s, first byte %s)" % (fv, (lo, hi))
+        return None
+
+    by_value = 0
     ip.on_call.append(on_call)
     ip.on_call_result.append(on_res)
     old_thr, old_sum = ip.join_threshold, ip.summarizable
@@ -490,44 +552,22 @@ def check_ints(ctx, F, A):
                     why = None
                     if not (isinstance(rest, VSlice) and rest.root == inp.root and s2.prove_eq0(rest.start - inp.start - ln)):
                         why = "takes exactly len bytes"
-                    elif be is None or be[0] != "core::num::<impl %s>::from_be_bytes" % tname or be[1] is None or len(be[1]) != size:
-                        why = "converts a %d-byte array with %s::from_be_bytes (got %r)" % (size, tname, be and be[0])
-                    elif s2.ghost.get("c12-be-ret") != val:
-                        why = "returns the value of that conversion"
+                    elif not value_ok(s2, val, inp, ln, size, signed):
+                        # not provable on the value itself: accept the canonical construction (sign-/zero-filled array given to from_be_bytes)
+                        why = array_ok(s2, val, be, inp, ln, size, signed, tname, fills)
                     else:
-                        arr = be[1]
-                        first = slice_elem(ip, s2, inp, Lin.const(0))
-                        for j in range(ln):
-                            src = slice_elem(ip, s2, inp, Lin.const(j))
-                            e = arr[size - ln + j]
-                            if not (isinstance(e, VInt) and isinstance(src, VInt) and s2.prove_eq0(e.lin - src.lin)):
-                                why = "copies the bytes right-aligned to [SIZE-len, SIZE) in order (byte %d differs)" % j
-                                break
-                        if why is None:
-                            fvs = {s2.const_of(e.lin) if isinstance(e, VInt) else None for e in arr[:size - ln]}
-                            if len(fvs) > 1 or (fvs and None in fvs):
-                                why = "fills the leading bytes with one constant"
-                            elif fvs:
-                                fv = fvs.pop()
-                                fills.add(fv)
-                                lo, hi = s2.interval(first.lin) if isinstance(first, VInt) else (None, None)
-                                if fv == 0xff:
-                                    good = signed and lo is not None and lo >= 0x80
-                                elif fv == 0:
-                                    good = (not signed) or (hi is not None and hi <= 0x7f)
-                                else:
-                                    good = False
-                                if not good:
-                                    why = "fills with 0xff exactly when signed and the first byte is >= 0x80 (fill %s, first byte %s)" % (fv, (lo, hi))
+                        by_value += 1
                     ctx.oblig(why is None)
                     if len(ctx.samples) < 8 and tname in ("i16", "u32") and ln == 1 and why is None:
-                        ctx.sample({"integer": tname, "len": ln, "array_given_to_from_be_bytes": [repr(e) for e in be[1]]})
+                        ctx.sample({"integer": tname, "len": ln, "returned_value": s2.describe(val.lin) if isinstance(val, VInt) else repr(val),
+                                    "array_given_to_from_be_bytes": [repr(e) for e in be[1]] if be and be[1] else None})
                     if why:
                         ctx.violation("R-C12-INT", "%s|%s" % (tname, why.split()[0]), where,
                                       "%s with a %d-byte encoding: cannot prove that it %s" % (tname, ln, why))
-                if n_ok < (2 if signed and ln < size else 1):
+                if n_ok < 1:
                     ctx.violation("BELOW-FLOOR", "R-C12-INT|%s|%d" % (tname, ln), where, "%s, %d bytes: %d success paths" % (tname, ln, n_ok))
     finally:
+        ctx.cov["ints_proved_on_value"] = by_value
         ip.join_threshold, ip.summarizable = old_thr, old_sum
         ip.on_call.remove(on_call)
         ip.on_call_result.remove(on_res)
